@@ -68,9 +68,10 @@ Ltac aleaf :=
 (* a batch is empty or not; its length is only known to be positive in the second case *)
 Ltac frames_open :=
   cbn [frames_ops ser p_len p_size p_sum p_sumsq p_count p_empty
-       on_new on_old initial sum_s count_s size_s mean_s var_s dup nonempty
-       mean_finish var_finish repaired mean_hack var_raises andb];
-  unfold compute_result, qdivz.
+       on_new on_old initial sum_s count_s size_s mean_s var_s nonempty
+       repaired mean_hack var_raises andb];
+  unfold dup, mean_finish, var_finish, compute_result, qdivz;
+  cbn [repaired mean_hack var_raises andb].
 Ltac by_batch new :=
   destruct new as [|r new];
   [ cbn [length Z.of_nat col map psum pcount psumsq sq psize nonempty]
